@@ -353,6 +353,10 @@ func copyDBIntoSQLite(source, destination *sql.DB,
 			return err
 		}
 	}
+	if err := genericRows.Err(); err != nil {
+		logger.Printf("err='%s'", err)
+		return err
+	}
 	err = tx.Commit()
 	if err != nil {
 		logger.Printf("err='%s'", err)
